@@ -1,6 +1,7 @@
 package server
 
 import (
+	"context"
 	"io"
 	"net/http"
 	"net/url"
@@ -89,9 +90,13 @@ type vChunkReader struct {
 	i      int
 	endErr error
 	closed int
+	onRead func(i int) // called at the start of every Read with the index of the next chunk
 }
 
 func (r *vChunkReader) Read(p []byte) (int, error) {
+	if r.onRead != nil {
+		r.onRead(r.i)
+	}
 	if r.i >= len(r.chunks) {
 		if r.endErr != nil {
 			return 0, r.endErr
@@ -386,9 +391,34 @@ func HarnessRequestBuffer() {
 	h := &vScriptedHandler{readBody: true, explicit: true, status: 204}
 	mw := WithRequestBufferMiddleware(maxMem, maxBytes, h)
 	req := &http.Request{Method: "POST", URL: &url.URL{Path: "/x"}, Header: http.Header{}, Body: body}
+	// the request may be cancelled while its body is still being buffered — by a drain of the target (cause
+	// ErrorDraining) or by the client going away — at any chunk boundary, the end of the body included
+	cancelled := false
+	if cancelMode := vChoose("cancel_during_upload", 3); cancelMode > 0 {
+		ctx, cancel := context.WithCancelCause(context.Background())
+		req = req.WithContext(ctx)
+		at := vChoose("cancel_at", nChunks+1)
+		body.onRead = func(i int) {
+			if i == at && !cancelled {
+				cancelled = true
+				if cancelMode == 1 {
+					cancel(ErrorDraining)
+				} else {
+					cancel(nil)
+				}
+			}
+		}
+	}
 	mw.ServeHTTP(client, req)
 
 	over := vAnd(maxBytes > 0, int64(len(all)) > maxBytes)
+	if cancelled && !over && !readFails {
+		// whether a cancelled request still reaches the next handler is not C14's business; that nothing it spilled
+		// stays behind is
+		vAssert(vLiveTempFiles() == 0, "reqbuf: every spill file is gone when a request cancelled during its upload ends")
+		vCover(len(vFileList) > 0, "cancelled spilled request reachable")
+		return
+	}
 	if over {
 		vAssert(h.invoked == 0, "reqbuf: oversized body => target not contacted")
 		vAssert(client.status == 413, "reqbuf: oversized body => 413")
